@@ -1,70 +1,80 @@
 import HeimdallModel.Lemmas.ProxyFwdMain
+import HeimdallModel.Lemmas.ProxyFwdList
 /-!
 # C15 — proxy mode forwards exactly the rewritten request, pipeline headers win
 
 `ProxyFwd.forward c` is the model of the whole way of one request through heimdall's proxy entry point
 (`Model/ProxyFwd.lean`; it is what the correspondence check runs against the real proxy service, rule and upstream
-test server).  `c : Case` ranges over all trusted-proxy lists, peers, rules (`forward_to.host`, `rewrite`,
-`allow_encoded_slashes`), pipeline results (headers in any casing and multiplicity, cookies) and client requests
-(any method, request target, header lines, body).  The statements below say that whatever `forward` hands to the
-upstream meets the specification `Spec/ProxyFwd.lean`; `c15_model_meets_spec` collects them into the oracle that the
-check also evaluates on what the real upstream received.
+test server).  `c : Case` ranges over all trusted-proxy lists, peers, listeners (plain / TLS), rules
+(`forward_to.host`, `rewrite`, `allow_encoded_slashes`), pipeline results (headers in any casing and multiplicity,
+cookies) and client requests (any method, request target, header lines incl. `Connection` and the forwarding headers,
+body).  The "original URL" is the one of the request line, or the `X-Forwarded-Uri` of a trusted proxy
+(`Spec.origTarget`).  The statements below say that whatever `forward` hands to the upstream meets the specification
+`Spec/ProxyFwd.lean`; `c15_model_meets_spec_up_to_known_deviations` collects them into the oracle that the check also
+evaluates on what the real upstream received.  Three clauses of the specification are *not* met by the implementation
+(recorded findings, `Spec.deviations`); they are stated, the matching theorems carry the suffix `_partial` with the
+decidable side condition, and the failure is proved at a concrete witness.
 -/
 namespace Heimdall.Props.C15
 open Heimdall Heimdall.ProxyFwd
 
 /-- A request that exercises every part at once (used as the witness that the hypotheses of the statements below can
-be met): trusted peer with two `X-Forwarded-For` lines and an `X-Forwarded-Path`, a path with an encoded slash in
-lower-case hex, a listed query parameter in a different spelling next to a malformed pair, a pipeline header colliding
-with a client header in another casing, strip and add prefix. -/
+be met): TLS listener, trusted peer with two `X-Forwarded-For` lines, an `X-Forwarded-Path` and an `X-Forwarded-Uri`
+whose path has a raw `"` next to an encoded slash in lower-case hex and whose query has a listed parameter in another
+spelling next to a malformed pair, a `Connection` header naming a client header and the pipeline's header, a pipeline
+header colliding with a client header in another casing, strip and add prefix. -/
 def witness : Case :=
   ⟨[b!"127.0.0.2"],
    ⟨.noDecode, b!"up:8080", some ⟨[], b!"/api", b!"/v%2F1", [b!"secret"]⟩⟩,
    ⟨[(b!"x-USER", b!"alice")], []⟩,
-   ⟨b!"POST", b!"/api/a%2fb?se%63ret=1&x=%zz", b!"h",
+   ⟨b!"POST", b!"/ignored?z=1", b!"h",
     [(b!"X-uSeR", b!"mallory"), (b!"X-Forwarded-For", b!"1.1.1.1"), (b!"x-forwarded-for", b!"2.2.2.2"),
-     (b!"X-Forwarded-Path", b!"/evil")], b!"body", b!"127.0.0.2"⟩⟩
+     (b!"X-Forwarded-Path", b!"/evil"), (b!"X-Forwarded-Uri", b!"/api/a\"%2fb?se%63ret=1&x=%zz"),
+     (b!"Connection", b!"x-hop, X-User"), (b!"X-Hop", b!"1"), (b!"Keep-Alive", b!"timeout=5")],
+    b!"body", b!"127.0.0.2", true⟩⟩
 
 set_option maxRecDepth 100000 in
 /-- the witness is forwarded — `forward c = .forwarded …`, the hypothesis of every statement, is satisfiable — and this
 is what the upstream reads -/
-example : forward witness = .forwarded false b!"up:8080"
-    ⟨b!"POST", b!"/v%2F1/a%2fb", b!"x=%zz", b!"up:8080",
+example : forward witness = .forwarded true b!"up:8080"
+    ⟨b!"POST", b!"/v%2F1/a%22%2fb", b!"x=%zz", b!"up:8080",
      [(b!"Accept-Encoding", b!"gzip"), (b!"X-Forwarded-For", b!"1.1.1.1, 2.2.2.2, 127.0.0.2"),
-      (b!"X-Forwarded-Host", b!"h"), (b!"X-Forwarded-Proto", b!"http"), (b!"X-User", b!"alice")], b!"body"⟩ := by
+      (b!"X-Forwarded-Host", b!"h"), (b!"X-Forwarded-Proto", b!"https"), (b!"X-User", b!"alice")], b!"body"⟩ := by
   decide
 
-example : Spec.plainUrl witness = true ∧ Spec.addEncoded witness = true ∧ Spec.addDecodable witness = true ∧
-    Spec.mustForward witness = true ∧ Spec.xFamily witness = true ∧ Spec.stripNames witness ≠ [] := by decide
+set_option maxRecDepth 100000 in
+example : Spec.addEncoded witness = true ∧ Spec.addDecodable witness = true ∧ Spec.mustForward witness = true ∧
+    Spec.xFamily witness = true ∧ Spec.stripNames witness ≠ [] ∧ Spec.usesForwardedUri witness = true ∧
+    Spec.addrSafe witness = true ∧ Spec.pipeSingleValued witness = true ∧
+    Spec.pipeAvoidsContinued witness = true := by decide
 
 /-! ## Where the request goes -/
 
-/-- **Sent to `forward_to.host`.**  The connection goes to `forward_to.host` whatever the rewrite says; the `Host`
-header names `forward_to.host` unless the pipeline produced a non-empty `Host` header (any casing), which wins. -/
+/-- **Sent to `forward_to.host`.**  The connection goes to `forward_to.host` whatever the rewrite, the client's `Host`
+or the pipeline say; the `Host` header names `forward_to.host` unless the pipeline produced a non-empty `Host` header
+(any casing), which wins. -/
 theorem c15_forward_to_host (c : Case) (tls : Bool) (dial : Bytes) (up : UpReq)
     (h : forward c = .forwarded tls dial up) :
     dial = c.rule.host ∧ up.host = Spec.expectedHost c := by
   obtain ⟨path, raw, t, _, _, ht, _, _, hdial, hup⟩ := forward_forwarded c tls dial up h
   refine ⟨by rw [hdial]; exact ruleTarget_host _ _ _ ht, ?_⟩
   rw [hup]
-  show (rewriteHeaders (inHeaders c) c.pipe c.req.peer c.req.host c.rule.host).1 = Spec.expectedHost c
-  unfold rewriteHeaders Spec.expectedHost Spec.pipeValue
+  show (rewriteHeaders (inHeaders c) c.pipe c.req.peer c.req.host c.rule.host (listenerProto c.req.tls)).1 =
+    Spec.expectedHost c
+  unfold rewriteHeaders Spec.expectedHost Spec.pipeValues
   simp only
   unfold pipeFirst
-  rw [get_firstOfEach, firstValue_canonHeaders, firstOr_eq]
-  cases ((c.pipe.headers.filter fun x => canonicalKey x.1 = hHost).head?).map (·.2) with
-  | none => simp
-  | some v => by_cases hv : v = [] <;> simp [hv]
+  rw [get_firstOfEach, firstValue_canonHeaders, firstOr_eq, List.head?_map]
 
 /-- **Original scheme unless rewritten.**  TLS is spoken to the upstream exactly when the scheme is `https`, where the
-scheme is `rewrite.scheme` if configured and otherwise the scheme of the original request (`http` on this listener;
-what `X-Forwarded-Proto` says if a trusted proxy sent it). -/
+scheme is `rewrite.scheme` if configured and otherwise the scheme of the original request: what `X-Forwarded-Proto`
+says if a trusted proxy sent it, else the scheme of the listener the request arrived on. -/
 theorem c15_scheme (c : Case) (tls : Bool) (dial : Bytes) (up : UpReq) (h : forward c = .forwarded tls dial up) :
     tls = decide (Spec.expectedScheme c = b!"https") := by
   obtain ⟨path, raw, t, _, _, ht, _, htls, _, _⟩ := forward_forwarded c tls dial up h
   obtain ⟨hte, _⟩ := ruleTarget_some _ _ _ ht
   rw [htls, hte, createURL_scheme]
-  have : (extractURL (inHeaders c) (srv c path raw)).scheme = Spec.origScheme c := by
+  have : (extractURL c.req.tls (inHeaders c) (srv c path raw)).scheme = Spec.origScheme c := by
     unfold Spec.origScheme
     rw [firstOr_eq, ← get_inHeaders_fwd c _ xfproto_untrusted]
     rfl
@@ -72,20 +82,20 @@ theorem c15_scheme (c : Case) (tls : Bool) (dial : Bytes) (up : UpReq) (h : forw
   cases c.rule.rewrite <;> simp only [this]
 
 example : Spec.expectedScheme
-    ⟨[b!"127.0.0.2"], ⟨.off, b!"up:80", none⟩, ⟨[], []⟩,
-     ⟨b!"GET", b!"/", b!"h", [(b!"x-forwarded-proto", b!"https")], [], b!"127.0.0.2"⟩⟩ = b!"https" := by decide
+    ⟨[], ⟨.off, b!"up:80", none⟩, ⟨[], []⟩, ⟨b!"GET", b!"/", b!"h", [], [], b!"127.0.0.9", true⟩⟩ = b!"https" := by
+  decide
 
 /-! ## Path -/
 
-/-- **The path is rewritten on its original spelling, nothing else changes.**  Unless a trusted proxy supplied
-`X-Forwarded-Uri`, and provided `add_path_prefix` is itself a proper encoding, the path in the request line is, byte
-for byte, `add_path_prefix ++ (original path without strip_path_prefix)` (`/` if that is empty), where the original
-path is taken in the client's own spelling — every percent-escape as written, hex digits in their case — whenever
-that spelling is a valid encoding and the rule does not ask for decoding (`Spec.seenPath`). -/
+/-- **The path is rewritten on its original spelling, nothing else changes.**  Provided `add_path_prefix` is itself a
+proper encoding, the path in the request line is, byte for byte, `add_path_prefix ++ (original path without
+strip_path_prefix)` (`/` if that is empty).  The original path is taken in `Spec.seenPath`: unit by unit the client's
+own spelling — every `%XX` as written, hex digits in their case, every octet that may stand in a path as it is, any
+other octet percent-encoded — unless the rule asks for decoding (`on`). -/
 theorem c15_path_exact (c : Case) (tls : Bool) (dial : Bytes) (up : UpReq) (h : forward c = .forwarded tls dial up)
-    (hp : Spec.plainUrl c = true) (ha : Spec.addEncoded c = true) :
+    (ha : Spec.addEncoded c = true) :
     up.path = Spec.expectedPath c := by
-  obtain ⟨path, u, hdec, hu, hraw, hpath⟩ := target_path c tls dial up h hp
+  obtain ⟨path, u, hdec, hhead, hu, hraw, _, hpath⟩ := target_path c tls dial up h
   rw [hpath]
   unfold Spec.expectedPath Spec.rewrittenPath
   cases hrw : c.rule.rewrite with
@@ -112,15 +122,10 @@ theorem c15_path_exact (c : Case) (tls : Bool) (dial : Bytes) (up : UpReq) (h : 
     · simp only [hon, if_false] at hraw hall
       have hne : u.rawPath ≠ [] := by
         rw [hraw]
-        refine normPath_ne_nil _ path ?_ hdec
+        apply escapeInvalid_ne_nil
         intro e
-        rw [e] at hdec
-        simp only [pathUnescapeL, Option.some.injEq] at hdec
-        have hm := (forward_forwarded c tls dial up h).choose_spec.choose_spec.choose_spec.1
-        have := before_head _ (modelledTarget_head _ hm)
-        unfold Spec.origRawPath at e
-        rw [e] at this
-        simp at this
+        rw [e] at hhead
+        simp at hhead
       have := rewrite_exact_raw rw u hne (by
         rw [hu]
         unfold transformPath
@@ -130,21 +135,21 @@ theorem c15_path_exact (c : Case) (tls : Bool) (dial : Bytes) (up : UpReq) (h : 
         unfold validEncodedPath
         apply all_cutPrefix
         rw [seenPath_off c hon]
-        exact normPath_valid _) hdecR
+        exact escapeInvalid_valid _) hdecR
       rw [this, hu]; rfl
 
 example : Spec.addEncoded
     ⟨[], ⟨.noDecode, b!"up", some ⟨[], b!"/api", b!"/v%2F1", []⟩⟩, ⟨[], []⟩,
-     ⟨b!"GET", b!"/api/a%2fb", b!"h", [], [], b!"127.0.0.1"⟩⟩ = true := by decide
+     ⟨b!"GET", b!"/api/a%2fb", b!"h", [], [], b!"127.0.0.1", false⟩⟩ = true := by decide
 
-/-- **No double encoding.**  Unless a trusted proxy supplied `X-Forwarded-Uri`, and provided `add_path_prefix` can be
-decoded at all, decoding once what is written in the request line gives exactly the decoding of the rewritten original
-path — for every `allow_encoded_slashes` setting and for client spellings that are not valid encodings as well.  (Had
-an already escaped path been escaped again, one decoding would give back the escaped path, not the decoded one.) -/
+/-- **No double encoding.**  Provided `add_path_prefix` can be decoded at all, decoding once what is written in the
+request line gives exactly the decoding of the rewritten original path — for every `allow_encoded_slashes` setting.
+(Had an already escaped path been escaped again, one decoding would give back the escaped path, not the decoded
+one.) -/
 theorem c15_path_decodes_once (c : Case) (tls : Bool) (dial : Bytes) (up : UpReq)
-    (h : forward c = .forwarded tls dial up) (hp : Spec.plainUrl c = true) (ha : Spec.addDecodable c = true) :
+    (h : forward c = .forwarded tls dial up) (ha : Spec.addDecodable c = true) :
     pathUnescapeL up.path = pathUnescapeL (Spec.expectedPath c) ∧ (pathUnescapeL up.path).isSome = true := by
-  obtain ⟨path, u, hdec, hu, _, hpath⟩ := target_path c tls dial up h hp
+  obtain ⟨path, u, hdec, _, hu, _, _, hpath⟩ := target_path c tls dial up h
   rw [hpath]
   unfold Spec.expectedPath Spec.rewrittenPath
   have hsd : pathUnescapeL (Spec.seenPath c) = some path := seenPath_decodes c path hdec
@@ -166,62 +171,101 @@ theorem c15_seen_path_same_path (c : Case) (path : Bytes) (h : pathUnescapeL (Sp
     pathUnescapeL (Spec.seenPath c) = some path := seenPath_decodes c path h
 
 /-- **Percent-encoding preserved.**  With a rule that does not decode (`off`, `no_decode`) and does not rewrite the
-path, the path of the request line is the client's, byte for byte, for every valid encoding. -/
+path, the path of the request line is the client's spelling in which only the octets that may not stand in a path are
+encoded — and the client's, byte for byte, when it is a valid encoding. -/
 theorem c15_encoding_preserved (c : Case) (tls : Bool) (dial : Bytes) (up : UpReq)
-    (h : forward c = .forwarded tls dial up) (hp : Spec.plainUrl c = true) (hs : c.rule.slashes ≠ .on)
-    (hv : validEncodedPath (Spec.origRawPath c) = true)
+    (h : forward c = .forwarded tls dial up) (hs : c.rule.slashes ≠ .on)
     (hr : ∀ rw, c.rule.rewrite = some rw → rw.strip = [] ∧ rw.add = []) :
-    up.path = Spec.origRawPath c := by
-  have hne : Spec.origRawPath c ≠ [] := by
-    have hm := (forward_forwarded c tls dial up h).choose_spec.choose_spec.choose_spec.1
-    have := before_head _ (modelledTarget_head _ hm)
+    up.path = escapeInvalid (Spec.origRawPath c) ∧
+      (validEncodedPath (Spec.origRawPath c) = true → up.path = Spec.origRawPath c) := by
+  obtain ⟨_, _, _, hhead, _, _, _, _⟩ := target_path c tls dial up h
+  have hne : escapeInvalid (Spec.origRawPath c) ≠ [] := by
+    apply escapeInvalid_ne_nil
     intro e
-    unfold Spec.origRawPath at e
-    rw [e] at this
-    simp at this
-  have hseen : Spec.seenPath c = Spec.origRawPath c := by
-    unfold Spec.seenPath
-    simp [hs, hv]
+    rw [e] at hhead
+    simp at hhead
   have ha : Spec.addEncoded c = true := by
     unfold Spec.addEncoded Spec.addDecodable Spec.addPrefix
     cases hrw : c.rule.rewrite with
     | none => simp [pathUnescapeL]
     | some rw => simp [(hr rw hrw).2, pathUnescapeL]
-  rw [c15_path_exact c tls dial up h hp ha]
-  unfold Spec.expectedPath Spec.rewrittenPath orSlash
-  cases hrw : c.rule.rewrite with
-  | none => simp [hseen, hne]
-  | some rw =>
-    obtain ⟨h1, h2⟩ := hr rw hrw
-    simp [h1, h2, cutPrefix, hseen, hne]
+  have hp : up.path = escapeInvalid (Spec.origRawPath c) := by
+    rw [c15_path_exact c tls dial up h ha]
+    unfold Spec.expectedPath Spec.rewrittenPath orSlash
+    rw [seenPath_off c hs]
+    cases hrw : c.rule.rewrite with
+    | none => simp [hne]
+    | some rw =>
+      obtain ⟨h1, h2⟩ := hr rw hrw
+      simp [h1, h2, cutPrefix, hne]
+  exact ⟨hp, fun hv => by rw [hp, escapeInvalid_id _ hv]⟩
 
-example : validEncodedPath b!"/a%2fb/%7e%41!" = true ∧ ¬ validEncodedPath b!"/a\"b" = true := by decide
+example : escapeInvalid b!"/a\"%2fb/%7e%41!" = b!"/a%22%2fb/%7e%41!" := by decide
+
+/-- **An encoded slash stays encoded** unless the rule says `on`: if the original path contains `%2F` or `%2f` and no
+prefix is stripped, so does the path the upstream reads — also when the client's spelling contains octets Go does not
+accept in a path (raw `"`, `|`, `^`, non-ASCII …). -/
+theorem c15_encoded_slash_kept (c : Case) (tls : Bool) (dial : Bytes) (up : UpReq)
+    (h : forward c = .forwarded tls dial up) (ha : Spec.addEncoded c = true) (hs : c.rule.slashes ≠ .on)
+    (hst : Spec.stripPrefix c = []) (hsl : containsEncodedSlashL (Spec.origRawPath c) = true) :
+    containsEncodedSlashL up.path = true := by
+  rw [c15_path_exact c tls dial up h ha]
+  have hseen : containsEncodedSlashL (Spec.seenPath c) = true := by
+    rw [seenPath_off c hs, containsEncodedSlashL_escapeInvalid]; exact hsl
+  have happ : ∀ a b : Bytes, containsEncodedSlashL b = true → containsEncodedSlashL (a ++ b) = true := by
+    intro a b hb
+    induction a with
+    | nil => exact hb
+    | cons x t ih => rw [List.cons_append, containsEncodedSlashL_cons, ih]; simp
+  have hne : ∀ s : Bytes, containsEncodedSlashL s = true → orSlash s = s := by
+    intro s hc
+    unfold orSlash
+    cases s with
+    | nil => simp [containsEncodedSlashL] at hc
+    | cons _ _ => simp
+  unfold Spec.expectedPath Spec.rewrittenPath
+  unfold Spec.stripPrefix at hst
+  cases hrw : c.rule.rewrite with
+  | none => simp only; rw [hne _ hseen]; exact hseen
+  | some rw =>
+    simp only [hrw, Option.map_some, Option.getD_some] at hst
+    have : containsEncodedSlashL (rw.add ++ cutPrefix rw.strip (Spec.seenPath c)) = true := by
+      apply happ
+      rw [hst]
+      simpa [cutPrefix] using hseen
+    simp only
+    rw [hne _ this]; exact this
+
+example : containsEncodedSlashL (Spec.origRawPath
+    ⟨[], ⟨.noDecode, b!"up", none⟩, ⟨[], []⟩, ⟨b!"GET", b!"/a\"%2Fb", b!"h", [], [], b!"127.0.0.1", false⟩⟩) = true := by
+  decide
 
 /-! ## Query -/
 
-/-- **Query untouched without `strip_query_parameters`** — byte for byte, malformed pairs included. -/
+/-- **Query untouched without `strip_query_parameters`** — byte for byte, malformed pairs included, also when it is
+the query of a trusted `X-Forwarded-Uri`. -/
 theorem c15_query_untouched (c : Case) (tls : Bool) (dial : Bytes) (up : UpReq)
-    (h : forward c = .forwarded tls dial up) (hp : Spec.plainUrl c = true) (hn : Spec.stripNames c = []) :
+    (h : forward c = .forwarded tls dial up) (hn : Spec.stripNames c = []) :
     up.query = Spec.origQuery c := by
-  rw [target_query c tls dial up h hp, hn]
+  rw [target_query c tls dial up h, hn]
   simp [removeParams]
 
-/-- **Exactly the listed parameters are removed.**  The `&`-separated pieces of the forwarded query are the pieces of
-the original query, as written and in their order, without those whose (decoded) name is listed in
-`strip_query_parameters` — also when other pieces of the query are malformed. -/
+/-- **Exactly the listed parameters are removed.**  The `&`-separated pieces of the forwarded query — empty ones
+included — are the pieces of the original query, as written and in their order, without those whose (decoded) name is
+listed in `strip_query_parameters`, also when other pieces are malformed; if no piece is left there is no query. -/
 theorem c15_query_only_listed_removed (c : Case) (tls : Bool) (dial : Bytes) (up : UpReq)
-    (h : forward c = .forwarded tls dial up) (hp : Spec.plainUrl c = true) :
-    Spec.queryPairs up.query = (Spec.queryPairs (Spec.origQuery c)).filter (fun p => !Spec.named (Spec.stripNames c) p) := by
-  rw [target_query c tls dial up h hp]
-  exact queryPairs_removeParams _ _
+    (h : forward c = .forwarded tls dial up) :
+    if Spec.keptPieces c = [] then up.query = [] else splitOn '&' up.query = Spec.keptPieces c := by
+  rw [target_query c tls dial up h]
+  exact splitOn_removeParams _ _
 
 /-- **No listed parameter reaches the upstream, in any spelling**, and every other parameter keeps its values and
 their order, as `url.ParseQuery` reads the two queries. -/
 theorem c15_query_semantics (c : Case) (tls : Bool) (dial : Bytes) (up : UpReq)
-    (h : forward c = .forwarded tls dial up) (hp : Spec.plainUrl c = true) :
+    (h : forward c = .forwarded tls dial up) :
     parseQueryPairs up.query =
       (parseQueryPairs (Spec.origQuery c)).filter (fun kv => !(Spec.stripNames c).contains kv.1) := by
-  rw [target_query c tls dial up h hp]
+  rw [target_query c tls dial up h]
   exact parseQueryPairs_removeParams _ _
 
 example : Spec.named [b!"secret"] b!"se%63ret=1" = true ∧ Spec.named [b!"secret"] b!"%zz=1" = false := by decide
@@ -247,28 +291,34 @@ theorem c15_method_body (c : Case) (tls : Bool) (dial : Bytes) (up : UpReq) (h :
 
 example : Spec.believed
     ⟨[b!"10.0.0.0/8"], ⟨.off, b!"up", none⟩, ⟨[], []⟩,
-     ⟨b!"GET", b!"/", b!"h", [(b!"X-Forwarded-Method", b!"DELETE")], [], b!"127.0.0.1"⟩⟩ hXFMethod = [] := by
+     ⟨b!"GET", b!"/", b!"h", [(b!"X-Forwarded-Method", b!"DELETE")], [], b!"127.0.0.1", false⟩⟩ hXFMethod = [] := by
   decide
 
 /-! ## Headers -/
 
 /-- **Every header name carries exactly what the specification says** (`Spec.expectedValues`): the value computed by
-heimdall for the forwarding headers it continues, else the first value the pipeline produced under that name (in any
-casing), else nothing for the seven forwarding headers, else the client's values in their order. -/
-theorem c15_headers (c : Case) (tls : Bool) (dial : Bytes) (up : UpReq) (h : forward c = .forwarded tls dial up)
-    (k : Bytes) (vs : List Bytes) (he : Spec.expectedValues c k = some vs) : values up.headers k = vs := by
+heimdall for `X-Forwarded-Proto` and `-Host` when it continues that family; else what the pipeline produced under that name
+(in any casing); else nothing for the seven forwarding headers and for hop-by-hop headers (the standard ones and those
+the client lists in `Connection`); else the client's values in their order.  Partial: for names under which the
+pipeline produced one value at most, and which are not the forwarding header heimdall continues (`Spec.deviations`). -/
+theorem c15_headers_partial (c : Case) (tls : Bool) (dial : Bytes) (up : UpReq)
+    (h : forward c = .forwarded tls dial up) (k : Bytes) (vs : List Bytes)
+    (he : Spec.expectedValues c k = some vs) (hr : Spec.repeatedPipeName c k = false)
+    (hpc : Spec.pipeContinued c k = false) : values up.headers k = vs := by
   obtain ⟨path, raw, t, _, _, _, _, _, _, hup⟩ := forward_forwarded c tls dial up h
   unfold Spec.expectedValues at he
-  by_cases hto : Spec.transportOwned k = true
-  · simp [hto] at he
-  · have hto' : Spec.transportOwned k = false := by simpa using hto
-    simp only [hto', Bool.false_eq_true, if_false] at he
+  by_cases hg : (Spec.transportOwned k || decide (k = Spec.continuedName c) || decide (k = hTe) ||
+      decide (k = hConnection) || decide (k = hUpgrade)) = true
+  · simp [hg] at he
+  · simp only [hg, Bool.false_eq_true, if_false] at he
+    simp only [Bool.or_eq_true, decide_eq_true_eq, not_or, Bool.not_eq_true] at hg
+    obtain ⟨⟨⟨⟨hto, hcn⟩, h1⟩, h2⟩, h3⟩ := hg
     have hH : k ≠ hHost := by
-      intro e; subst e; revert hto'; decide
-    have hxf : xFam (inHeaders c) = Spec.xFamily c := by
-      unfold xFam Spec.xFamily Spec.priorFor
-      rw [values_inHeaders_fwd c _ xffor_untrusted, firstOr_nil, firstOr_nil,
-        get_inHeaders_fwd c _ xfproto_untrusted, get_inHeaders_fwd c _ xfhost_untrusted]
+      intro e; subst e; revert hto; decide
+    have hlen : (Spec.pipeValues c k).length ≤ 1 := by
+      unfold Spec.repeatedPipeName at hr
+      simp only [ge_iff_le, decide_eq_false_iff_not, Nat.not_le] at hr
+      omega
     have hC : k ≠ hCookie ∨ c.pipe.cookies = [] := by
       by_cases hk : k = hCookie
       · right
@@ -276,259 +326,399 @@ theorem c15_headers (c : Case) (tls : Bool) (dial : Bytes) (up : UpReq) (h : for
         · exact hcs
         · exfalso
           subst hk
-          have e1 : (hCookie = hXFFor) = False := by decide
           have e2 : (hCookie = hXFProto) = False := by decide
           have e3 : (hCookie = hXFHost) = False := by decide
-          have e4 : (hCookie = hForwarded) = False := by decide
-          simp [e1, e2, e3, e4, hcs] at he
+          simp [e2, e3, hcs] at he
       · exact Or.inl hk
+    have hmv := model_values c k hH hC h1 h2 h3 hcn
     rw [hup]
-    show values (wireHeaders _ (rewriteHeaders (inHeaders c) c.pipe c.req.peer c.req.host c.rule.host).2) k = vs
-    rw [values_wireHeaders _ _ _ hto', values_rewriteHeaders _ _ _ _ _ _ hH hC, hxf]
-    have hpv : firstValue (canonHeaders c.pipe.headers) k = Spec.pipeValue c k := by
-      rw [firstValue_canonHeaders]; rfl
-    rw [hpv]
-    by_cases hX : Spec.xFamily c = true
-    · simp only [hX, Bool.true_and, Bool.not_true, Bool.false_and, Bool.false_eq_true, if_false, decide_eq_true_eq] at he ⊢
-      by_cases h1 : k = hXFFor
-      · subst h1
-        have e2 : (hXFFor = hXFProto) = False := by decide
-        have e3 : (hXFFor = hXFHost) = False := by decide
-        simp only [if_true, Option.some.injEq] at he
-        simp only [e2, e3, if_false, if_true]
-        rw [← he, values_inHeaders_fwd c _ xffor_untrusted]
-        unfold Spec.extend Spec.priorFor
-        rfl
-      · simp only [h1, if_false] at he ⊢
-        by_cases h2 : k = hXFProto
-        · subst h2
-          have e3 : (hXFProto = hXFHost) = False := by decide
+    show values (wireHeaders _ (rewriteHeaders (inHeaders c) c.pipe c.req.peer c.req.host c.rule.host
+      (listenerProto c.req.tls)).2) k = vs
+    -- the forwarding headers heimdall continues
+    by_cases hxp : (Spec.xFamily c && decide (k = hXFProto)) = true
+    · simp only [hxp, if_true, Option.some.injEq] at he
+      have hk : k = hXFProto := by
+        simp only [Bool.and_eq_true, decide_eq_true_eq] at hxp; exact hxp.2
+      have hne : ¬ (Spec.xFamily c && decide (k = hXFHost)) = true := by
+        subst hk
+        have : (hXFProto = hXFHost) = False := by decide
+        simp [this]
+      rw [values_wireHeaders _ _ _ hto (by subst hk; decide) (Or.inl (by subst hk; decide)), hmv]
+      simp only [hne, if_false, hxp, if_true]
+      exact he
+    · simp only [hxp, Bool.false_eq_true, if_false] at he
+      by_cases hxh : (Spec.xFamily c && decide (k = hXFHost)) = true
+      · simp only [hxh, if_true, Option.some.injEq] at he
+        have hk : k = hXFHost := by
+          simp only [Bool.and_eq_true, decide_eq_true_eq] at hxh; exact hxh.2
+        rw [values_wireHeaders _ _ _ hto (by subst hk; decide) (Or.inl (by subst hk; decide)), hmv]
+        simp only [hxh, if_true]
+        exact he
+      · simp only [hxh, Bool.false_eq_true, if_false] at he
+        simp only [hxh, hxp, Bool.false_eq_true, if_false] at hmv
+        have hck : (decide (k = hCookie) && decide (c.pipe.cookies ≠ [])) = false := by
+          rcases hC with e | e
+          · simp [e]
+          · simp [e]
+        simp only [hck, Bool.false_eq_true, if_false] at he
+        -- what the pipeline produced, else what the client sent end to end
+        have hsrc : oneOr (Spec.pipeValues c k).head? (Spec.endToEnd c k) =
+            (if Spec.pipeValues c k ≠ [] then Spec.pipeValues c k else Spec.endToEnd c k) := by
+          unfold oneOr
+          cases hpv : Spec.pipeValues c k with
+          | nil => simp
+          | cons v rest =>
+            have : rest = [] := by
+              rw [hpv] at hlen
+              simp only [List.length_cons] at hlen
+              exact List.eq_nil_of_length_eq_zero (by omega)
+            subst this
+            simp
+        rw [hsrc] at hmv
+        by_cases hua : k = hUserAgent
+        · subst hua
           simp only [if_true, Option.some.injEq] at he
-          simp only [e3, if_false, if_true]
-          rw [← he, firstOr_eq, get_inHeaders_fwd c _ xfproto_untrusted]
-          by_cases hg : (Spec.believed c hXFProto).head?.getD [] = [] <;> simp [hg]
-        · simp only [h2, if_false] at he ⊢
-          by_cases h3 : k = hXFHost
-          · subst h3
-            simp only [if_true, Option.some.injEq] at he ⊢
-            rw [← he, firstOr_eq, get_inHeaders_fwd c _ xfhost_untrusted]
-            by_cases hg : (Spec.believed c hXFHost).head?.getD [] = [] <;> simp [hg]
-          · simp only [h3, if_false] at he ⊢
-            have hck : (k = hCookie ∧ c.pipe.cookies ≠ []) = False := by
-              simp only [eq_iff_iff, iff_false, not_and, ne_eq, Decidable.not_not]
-              intro e
-              rcases hC with h | h
-              · exact absurd e h
-              · exact h
-            simp only [Bool.and_eq_true, decide_eq_true_eq, hck, if_false] at he
-            cases hp : Spec.pipeValue c k with
-            | some v => simp only [hp, Option.some.injEq] at he ⊢; exact he
-            | none =>
-              simp only [hp] at he ⊢
-              by_cases hu : untrustedHeaders.contains k = true
-              · simp only [hu, if_true, Option.some.injEq] at he ⊢; exact he
-              · simp only [hu, Bool.false_eq_true, if_false, Option.some.injEq] at he ⊢
-                rw [← he]
-                exact values_inHeaders_other c k (by simpa using hu)
-    · have hX' : Spec.xFamily c = false := by simpa using hX
-      simp only [hX', Bool.false_and, Bool.false_eq_true, if_false, Bool.not_false, Bool.true_and,
-        decide_eq_true_eq] at he ⊢
-      by_cases h1 : k = hForwarded
-      · subst h1
-        simp only [if_true, Option.some.injEq] at he ⊢
-        rw [← he, values_inHeaders_fwd c _ forwarded_untrusted]
-        unfold Spec.extend Spec.priorForwarded
-        rfl
-      · simp only [h1, if_false] at he ⊢
-        have hck : (k = hCookie ∧ c.pipe.cookies ≠ []) = False := by
-          simp only [eq_iff_iff, iff_false, not_and, ne_eq, Decidable.not_not]
-          intro e
-          rcases hC with h | h
-          · exact absurd e h
-          · exact h
-        simp only [Bool.and_eq_true, decide_eq_true_eq, hck, if_false] at he
-        cases hp : Spec.pipeValue c k with
-        | some v => simp only [hp, Option.some.injEq] at he ⊢; exact he
-        | none =>
-          simp only [hp] at he ⊢
-          by_cases hu : untrustedHeaders.contains k = true
-          · simp only [hu, if_true, Option.some.injEq] at he ⊢; exact he
-          · simp only [hu, Bool.false_eq_true, if_false, Option.some.injEq] at he ⊢
-            rw [← he]
-            exact values_inHeaders_other c k (by simpa using hu)
+          rw [values_wireHeaders_ua, hmv]
+          exact he
+        · simp only [hua, if_false] at he
+          by_cases hae : k = hAcceptEncoding
+          · subst hae
+            simp only [if_true] at he
+            cases hsv : (if Spec.pipeValues c hAcceptEncoding ≠ [] then Spec.pipeValues c hAcceptEncoding
+                else Spec.endToEnd c hAcceptEncoding) with
+            | nil => simp [hsv] at he
+            | cons v rest =>
+              simp only [hsv] at he
+              by_cases hv : v = []
+              · simp [hv] at he
+              · simp only [hv, if_false, Option.some.injEq] at he
+                rw [hsv] at hmv
+                have hgne : ProxyFwd.get (rewriteHeaders (inHeaders c) c.pipe c.req.peer c.req.host c.rule.host
+                    (listenerProto c.req.tls)).2 hAcceptEncoding ≠ [] := by
+                  unfold ProxyFwd.get
+                  rw [hmv]
+                  simpa using hv
+                rw [values_wireHeaders _ _ _ hto hua (Or.inr hgne), hmv]
+                exact he
+          · simp only [hae, if_false] at he
+            rw [values_wireHeaders _ _ _ hto hua (Or.inl hae), hmv]
+            by_cases hpv : Spec.pipeValues c k = []
+            · simp only [hpv, ne_eq, not_true_eq_false, if_false, Option.some.injEq] at he ⊢
+              exact he
+            · simp only [hpv, ne_eq, not_false_eq_true, if_true, Option.some.injEq] at he ⊢
+              exact he
 
-/-- **Pipeline headers win.**  If the pipeline produced a header whose canonical name is `k` — in whatever casing, and
-whatever the client sent under that name in whatever casing and however often — the upstream reads exactly one line
-for `k`, carrying the first value the pipeline produced.  (Not for names owned by the HTTP client library, for the
-forwarding header heimdall continues, and for `Cookie` when the pipeline produced cookies, which are appended.) -/
+/-- **Pipeline headers win.**  If the pipeline produced one header whose canonical name is `k` — in whatever casing,
+and whatever the client sent under that name in whatever casing and however often, whether or not the client lists
+the name in `Connection` — the upstream reads exactly one line for `k`, carrying the pipeline's value.  (Not for
+`Host`, see `c15_forward_to_host`; `User-Agent` / `Accept-Encoding` see below; not for framing headers, for the
+forwarding header heimdall continues, for `Te`/`Connection`/`Upgrade`, and for `Cookie` when the pipeline produced
+cookies, which are appended.) -/
 theorem c15_pipeline_header_wins (c : Case) (tls : Bool) (dial : Bytes) (up : UpReq)
-    (h : forward c = .forwarded tls dial up) (k v : Bytes) (hv : Spec.pipeValue c k = some v)
+    (h : forward c = .forwarded tls dial up) (k v : Bytes) (hv : Spec.pipeValues c k = [v])
     (h1 : Spec.transportOwned k = false) (h2 : Spec.continued c k = false)
-    (h3 : k ≠ hCookie ∨ c.pipe.cookies = []) :
+    (h3 : k ≠ hCookie ∨ c.pipe.cookies = [])
+    (h4 : k ≠ hTe ∧ k ≠ hConnection ∧ k ≠ hUpgrade ∧ k ≠ hUserAgent ∧ k ≠ hAcceptEncoding) :
     values up.headers k = [v] := by
-  apply c15_headers c tls dial up h k [v]
-  unfold Spec.expectedValues
-  unfold Spec.continued at h2
-  have hck : (k = hCookie ∧ c.pipe.cookies ≠ []) = False := by
-    simp only [eq_iff_iff, iff_false, not_and, ne_eq, Decidable.not_not]
-    intro e
-    rcases h3 with h | h
-    · exact absurd e h
-    · exact h
-  by_cases hX : Spec.xFamily c = true
-  · simp only [hX, if_true, Bool.or_eq_false_iff, decide_eq_false_iff_not] at h2
-    simp [h1, hX, h2.1.1, h2.1.2, h2.2, hck, hv]
-  · have hX' : Spec.xFamily c = false := by simpa using hX
-    simp only [hX', Bool.false_eq_true, if_false, decide_eq_false_iff_not] at h2
-    simp [h1, hX', h2, hck, hv]
+  apply c15_headers_partial c tls dial up h k [v]
+  · unfold Spec.expectedValues Spec.continuedName
+    unfold Spec.continued at h2
+    have hck : (decide (k = hCookie) && decide (c.pipe.cookies ≠ [])) = false := by
+      rcases h3 with e | e
+      · simp [e]
+      · simp [e]
+    obtain ⟨n1, n2, n3, n4, n5⟩ := h4
+    have hck' : k = hCookie → c.pipe.cookies = [] := by
+      intro e
+      rcases h3 with e' | e'
+      · exact absurd e e'
+      · exact e'
+    by_cases hX : Spec.xFamily c = true
+    · simp only [hX, if_true, Bool.or_eq_false_iff, decide_eq_false_iff_not] at h2
+      simpa [h1, hX, h2.1.1, h2.1.2, h2.2, hv, n1, n2, n3, n4, n5] using hck'
+    · have hX' : Spec.xFamily c = false := by simpa using hX
+      simp only [hX', Bool.false_eq_true, if_false, decide_eq_false_iff_not] at h2
+      simpa [h1, hX', h2, hv, n1, n2, n3, n4, n5] using hck'
+  · simp [Spec.repeatedPipeName, hv]
+  · simp [Spec.pipeContinued, h2]
 
-example : Spec.pipeValue
-    ⟨[], ⟨.off, b!"up", none⟩, ⟨[(b!"x-USER", b!"alice"), (b!"X-User", b!"bob")], []⟩,
-     ⟨b!"GET", b!"/", b!"h", [(b!"X-uSeR", b!"mallory"), (b!"x-user", b!"eve")], [], b!"127.0.0.1"⟩⟩
-    b!"X-User" = some b!"alice" := by decide
+example : Spec.pipeValues
+    ⟨[], ⟨.off, b!"up", none⟩, ⟨[(b!"x-USER", b!"alice")], []⟩,
+     ⟨b!"GET", b!"/", b!"h", [(b!"X-uSeR", b!"mallory"), (b!"x-user", b!"eve"), (b!"Connection", b!"x-user")], [],
+      b!"127.0.0.1", false⟩⟩
+    b!"X-User" = [b!"alice"] := by decide
+
+/-- **The pipeline also wins for `User-Agent` and `Accept-Encoding`**, the two names Go's HTTP client writes itself: a
+non-empty value the pipeline produced is the only one the upstream reads. -/
+theorem c15_pipeline_wins_library_headers (c : Case) (tls : Bool) (dial : Bytes) (up : UpReq)
+    (h : forward c = .forwarded tls dial up) (k v : Bytes) (hk : k = hUserAgent ∨ k = hAcceptEncoding)
+    (hv : Spec.pipeValues c k = [v]) (hne : v ≠ []) : values up.headers k = [v] := by
+  apply c15_headers_partial c tls dial up h k [v]
+  · unfold Spec.expectedValues Spec.continuedName
+    rcases hk with e | e <;> subst e
+    · have e0 : Spec.transportOwned hUserAgent = false := by decide
+      have e1 : (hUserAgent = hXFFor) = False := by decide
+      have e2 : (hUserAgent = hForwarded) = False := by decide
+      have e3 : (hUserAgent = hXFProto) = False := by decide
+      have e4 : (hUserAgent = hXFHost) = False := by decide
+      have e5 : (hUserAgent = hCookie) = False := by decide
+      have e6 : (hUserAgent = hTe) = False := by decide
+      have e7 : (hUserAgent = hConnection) = False := by decide
+      have e8 : (hUserAgent = hUpgrade) = False := by decide
+      cases Spec.xFamily c <;> simp [e0, e1, e2, e3, e4, e5, e6, e7, e8, hv, hne]
+    · have e0 : Spec.transportOwned hAcceptEncoding = false := by decide
+      have e1 : (hAcceptEncoding = hXFFor) = False := by decide
+      have e2 : (hAcceptEncoding = hForwarded) = False := by decide
+      have e3 : (hAcceptEncoding = hXFProto) = False := by decide
+      have e4 : (hAcceptEncoding = hXFHost) = False := by decide
+      have e5 : (hAcceptEncoding = hCookie) = False := by decide
+      have e6 : (hAcceptEncoding = hTe) = False := by decide
+      have e7 : (hAcceptEncoding = hConnection) = False := by decide
+      have e8 : (hAcceptEncoding = hUpgrade) = False := by decide
+      have e9 : (hAcceptEncoding = hUserAgent) = False := by decide
+      cases Spec.xFamily c <;> simp [e0, e1, e2, e3, e4, e5, e6, e7, e8, e9, hv, hne]
+  · simp [Spec.repeatedPipeName, hv]
+  · unfold Spec.pipeContinued Spec.continued
+    have a1 : (hUserAgent = hXFFor) = False := by decide
+    have a2 : (hUserAgent = hForwarded) = False := by decide
+    have a3 : (hUserAgent = hXFProto) = False := by decide
+    have a4 : (hUserAgent = hXFHost) = False := by decide
+    have b1 : (hAcceptEncoding = hXFFor) = False := by decide
+    have b2 : (hAcceptEncoding = hForwarded) = False := by decide
+    have b3 : (hAcceptEncoding = hXFProto) = False := by decide
+    have b4 : (hAcceptEncoding = hXFHost) = False := by decide
+    rcases hk with e | e <;> subst e <;> cases Spec.xFamily c <;> simp [a1, a2, a3, a4, b1, b2, b3, b4]
 
 /-- **`X-Forwarded-Method`, `-Uri`, `-Path` cannot be passed through** — from no peer, trusted or not, in no casing:
 the upstream reads these names only with a value the pipeline produced. -/
 theorem c15_no_forwarded_passthrough (c : Case) (tls : Bool) (dial : Bytes) (up : UpReq)
-    (h : forward c = .forwarded tls dial up) (k : Bytes) (hk : k = hXFMethod ∨ k = hXFUri ∨ k = hXFPath) :
-    values up.headers k = (Spec.pipeValue c k).toList := by
-  apply c15_headers c tls dial up h k
-  unfold Spec.expectedValues
-  rcases hk with e | e | e <;> subst e
-  · have e0 : Spec.transportOwned hXFMethod = false := by decide
-    have e1 : (hXFMethod = hXFFor) = False := by decide
-    have e2 : (hXFMethod = hXFProto) = False := by decide
-    have e3 : (hXFMethod = hXFHost) = False := by decide
-    have e4 : (hXFMethod = hForwarded) = False := by decide
-    have e5 : (hXFMethod = hCookie) = False := by decide
-    have e6 : untrustedHeaders.contains hXFMethod = true := by decide
-    simp only [e0, e1, e2, e3, e4, e5, e6, Bool.false_eq_true, if_false, decide_false, Bool.and_false, if_true]
-    cases Spec.pipeValue c hXFMethod <;> rfl
-  · have e0 : Spec.transportOwned hXFUri = false := by decide
-    have e1 : (hXFUri = hXFFor) = False := by decide
-    have e2 : (hXFUri = hXFProto) = False := by decide
-    have e3 : (hXFUri = hXFHost) = False := by decide
-    have e4 : (hXFUri = hForwarded) = False := by decide
-    have e5 : (hXFUri = hCookie) = False := by decide
-    have e6 : untrustedHeaders.contains hXFUri = true := by decide
-    simp only [e0, e1, e2, e3, e4, e5, e6, Bool.false_eq_true, if_false, decide_false, Bool.and_false, if_true]
-    cases Spec.pipeValue c hXFUri <;> rfl
-  · have e0 : Spec.transportOwned hXFPath = false := by decide
-    have e1 : (hXFPath = hXFFor) = False := by decide
-    have e2 : (hXFPath = hXFProto) = False := by decide
-    have e3 : (hXFPath = hXFHost) = False := by decide
-    have e4 : (hXFPath = hForwarded) = False := by decide
-    have e5 : (hXFPath = hCookie) = False := by decide
-    have e6 : untrustedHeaders.contains hXFPath = true := by decide
-    simp only [e0, e1, e2, e3, e4, e5, e6, Bool.false_eq_true, if_false, decide_false, Bool.and_false, if_true]
-    cases Spec.pipeValue c hXFPath <;> rfl
+    (h : forward c = .forwarded tls dial up) (k : Bytes) (hk : k = hXFMethod ∨ k = hXFUri ∨ k = hXFPath)
+    (hp : Spec.pipeValues c k = []) : values up.headers k = [] := by
+  apply c15_headers_partial c tls dial up h k []
+  · unfold Spec.expectedValues Spec.continuedName Spec.endToEnd
+    rcases hk with e | e | e <;> subst e
+    · have e0 : Spec.transportOwned hXFMethod = false := by decide
+      have e1 : (hXFMethod = hXFFor) = False := by decide
+      have e2 : (hXFMethod = hXFProto) = False := by decide
+      have e3 : (hXFMethod = hXFHost) = False := by decide
+      have e4 : (hXFMethod = hForwarded) = False := by decide
+      have e5 : (hXFMethod = hCookie) = False := by decide
+      have e6 : untrustedHeaders.contains hXFMethod = true := by decide
+      have e12 : hXFMethod ∈ untrustedHeaders := by decide
+      have e7 : (hXFMethod = hTe) = False := by decide
+      have e8 : (hXFMethod = hConnection) = False := by decide
+      have e9 : (hXFMethod = hUpgrade) = False := by decide
+      have e10 : (hXFMethod = hUserAgent) = False := by decide
+      have e11 : (hXFMethod = hAcceptEncoding) = False := by decide
+      cases Spec.xFamily c <;> simp [e0, e1, e2, e3, e4, e5, e6, e7, e8, e9, e10, e11, e12, hp]
+    · have e0 : Spec.transportOwned hXFUri = false := by decide
+      have e1 : (hXFUri = hXFFor) = False := by decide
+      have e2 : (hXFUri = hXFProto) = False := by decide
+      have e3 : (hXFUri = hXFHost) = False := by decide
+      have e4 : (hXFUri = hForwarded) = False := by decide
+      have e5 : (hXFUri = hCookie) = False := by decide
+      have e6 : untrustedHeaders.contains hXFUri = true := by decide
+      have e12 : hXFUri ∈ untrustedHeaders := by decide
+      have e7 : (hXFUri = hTe) = False := by decide
+      have e8 : (hXFUri = hConnection) = False := by decide
+      have e9 : (hXFUri = hUpgrade) = False := by decide
+      have e10 : (hXFUri = hUserAgent) = False := by decide
+      have e11 : (hXFUri = hAcceptEncoding) = False := by decide
+      cases Spec.xFamily c <;> simp [e0, e1, e2, e3, e4, e5, e6, e7, e8, e9, e10, e11, e12, hp]
+    · have e0 : Spec.transportOwned hXFPath = false := by decide
+      have e1 : (hXFPath = hXFFor) = False := by decide
+      have e2 : (hXFPath = hXFProto) = False := by decide
+      have e3 : (hXFPath = hXFHost) = False := by decide
+      have e4 : (hXFPath = hForwarded) = False := by decide
+      have e5 : (hXFPath = hCookie) = False := by decide
+      have e6 : untrustedHeaders.contains hXFPath = true := by decide
+      have e12 : hXFPath ∈ untrustedHeaders := by decide
+      have e7 : (hXFPath = hTe) = False := by decide
+      have e8 : (hXFPath = hConnection) = False := by decide
+      have e9 : (hXFPath = hUpgrade) = False := by decide
+      have e10 : (hXFPath = hUserAgent) = False := by decide
+      have e11 : (hXFPath = hAcceptEncoding) = False := by decide
+      cases Spec.xFamily c <;> simp [e0, e1, e2, e3, e4, e5, e6, e7, e8, e9, e10, e11, e12, hp]
+  · simp [Spec.repeatedPipeName, hp]
+  · simp [Spec.pipeContinued, hp]
+
+/-- **Everything else as the client sent it, hop-by-hop headers excepted.**  A header name that the pipeline did not
+produce and that is none of the forwarding headers reaches the upstream with the client's values, all of them, in
+order — unless it is hop-by-hop for this request (a standard hop-by-hop name, or listed in the client's `Connection`
+header), in which case the upstream does not read it at all. -/
+theorem c15_other_headers (c : Case) (tls : Bool) (dial : Bytes) (up : UpReq)
+    (h : forward c = .forwarded tls dial up) (k : Bytes) (h1 : Spec.transportOwned k = false)
+    (h2 : untrustedHeaders.contains k = false) (h3 : Spec.pipeValues c k = [])
+    (h4 : k ≠ hCookie ∨ c.pipe.cookies = [])
+    (h5 : k ≠ hTe ∧ k ≠ hConnection ∧ k ≠ hUpgrade ∧ k ≠ hUserAgent ∧ k ≠ hAcceptEncoding) :
+    values up.headers k = if Spec.hopByHop c k then [] else values (Spec.clientHeaders c) k := by
+  apply c15_headers_partial c tls dial up h
+  · unfold Spec.expectedValues Spec.continuedName Spec.endToEnd
+    have hn := (not_congr (untrusted_iff k)).mp (by simpa using h2)
+    simp only [not_or] at hn
+    obtain ⟨n1, n2, n3, n4, _, _, _⟩ := hn
+    obtain ⟨m1, m2, m3, m4, m5⟩ := h5
+    have hck : (decide (k = hCookie) && decide (c.pipe.cookies ≠ [])) = false := by
+      rcases h4 with e | e
+      · simp [e]
+      · simp [e]
+    have hck' : k = hCookie → c.pipe.cookies = [] := by
+      intro e
+      rcases h4 with e' | e'
+      · exact absurd e e'
+      · exact e'
+    have h2' : ¬ k ∈ untrustedHeaders := by
+      intro hm
+      have : untrustedHeaders.contains k = true := by simpa using hm
+      rw [h2] at this
+      exact Bool.noConfusion this
+    cases Spec.xFamily c <;> simpa [h1, n1, n2, n3, n4, h3, h2', m1, m2, m3, m4, m5] using hck'
+  · simp [Spec.repeatedPipeName, h3]
+  · simp [Spec.pipeContinued, h3]
+
+example : Spec.hopByHop
+    ⟨[], ⟨.off, b!"up", none⟩, ⟨[], []⟩,
+     ⟨b!"GET", b!"/", b!"h", [(b!"connection", b!"close , x-custom"), (b!"X-Custom", b!"1")], [], b!"127.0.0.1",
+      false⟩⟩ b!"X-Custom" = true := by decide
 
 /-- **`X-Forwarded-For` or `Forwarded` is extended by the peer address.**  If a trusted peer used the `X-Forwarded-*`
-family, the upstream reads one `X-Forwarded-For` line: all values received from that peer (every header line, in
-order) followed by the peer's address.  Otherwise it reads one `Forwarded` line: all `Forwarded` values received from
-a trusted peer, followed by `for=<peer>;host=<Host of the request>;proto=http`.  What an untrusted peer sent under
-these names is not part of either. -/
-theorem c15_forwarded_extended (c : Case) (tls : Bool) (dial : Bytes) (up : UpReq)
-    (h : forward c = .forwarded tls dial up) :
-    (Spec.xFamily c = true → values up.headers hXFFor = [Spec.extend (Spec.priorFor c) c.req.peer]) ∧
-    (Spec.xFamily c = false →
-      values up.headers hForwarded = [Spec.extend (Spec.priorForwarded c) (forwardedElem c.req.peer c.req.host)]) := by
-  constructor
-  · intro hX
-    apply c15_headers c tls dial up h
-    unfold Spec.expectedValues
-    have e0 : Spec.transportOwned hXFFor = false := by decide
-    simp [e0, hX]
-  · intro hX
-    apply c15_headers c tls dial up h
-    unfold Spec.expectedValues
-    have e0 : Spec.transportOwned hForwarded = false := by decide
-    have e1 : (hForwarded = hXFFor) = False := by decide
-    have e2 : (hForwarded = hXFProto) = False := by decide
-    have e3 : (hForwarded = hXFHost) = False := by decide
-    simp [e0, hX, e1, e2, e3]
+family, the upstream reads one `X-Forwarded-For` line whose elements are all elements received from that peer (every
+header line, in order) followed by the peer's address.  Otherwise it reads one `Forwarded` line whose elements are all
+`Forwarded` elements received from a trusted peer followed by one element with the parameter `for=<peer>`.  What an
+untrusted peer sent under these names is not part of either, and a pipeline header of that name does not change it.
+Partial: for peer addresses and `Host` values free of `,` `;` `"` and blanks (`Spec.addrSafe`, deviation `devHost`). -/
+theorem c15_forwarded_extended_partial (c : Case) (tls : Bool) (dial : Bytes) (up : UpReq)
+    (h : forward c = .forwarded tls dial up) (hs : Spec.addrSafe c = true) : Spec.extendedByPeer c up = true := by
+  obtain ⟨path, raw, t, _, _, _, _, _, _, hup⟩ := forward_forwarded c tls dial up h
+  have hs' : (c.req.peer ++ c.req.host).all cleanChar = true := by
+    unfold Spec.addrSafe at hs
+    rw [← hs]
+    congr 1
+  rw [List.all_append, Bool.and_eq_true] at hs'
+  obtain ⟨hpeerOK, hpeerSemi⟩ := elemOK_of_clean c.req.peer hs'.1
+  obtain ⟨hhostOK, _⟩ := elemOK_of_clean c.req.host hs'.2
+  have hpeer : ',' ∉ c.req.peer ∧ ';' ∉ c.req.peer ∧ ∀ ch ∈ c.req.peer, isOWS ch = false :=
+    ⟨hpeerOK.1, hpeerSemi, hpeerOK.2⟩
+  have hxf : xFam (inHeaders c) = Spec.xFamily c := by
+    unfold xFam Spec.xFamily Spec.priorFor
+    rw [values_inHeaders_fwd c _ xffor_untrusted, firstOr_nil, firstOr_nil,
+      get_inHeaders_fwd c _ xfproto_untrusted, get_inHeaders_fwd c _ xfhost_untrusted]
+  unfold Spec.extendedByPeer Spec.continuedName
+  rw [hup]
+  show (match values (wireHeaders _ (rewriteHeaders (inHeaders c) c.pipe c.req.peer c.req.host c.rule.host
+      (listenerProto c.req.tls)).2) (if Spec.xFamily c = true then hXFFor else hForwarded) with
+    | [v] => _
+    | _ => false) = true
+  by_cases hX : Spec.xFamily c = true
+  · simp only [hX, if_true]
+    rw [values_wireHeaders _ _ _ (by decide) (by decide) (Or.inl (by decide)),
+      values_rewriteHeaders _ _ _ _ _ _ _ (by decide) (Or.inl (by decide)) (by decide) (by decide) (by decide), hxf]
+    have e1 : (hXFFor = hXFHost) = False := by decide
+    have e2 : (hXFFor = hXFProto) = False := by decide
+    simp only [hX, Bool.true_and, e1, e2, decide_false, Bool.false_eq_true, if_false, decide_true, if_true]
+    rw [values_inHeaders_fwd c _ xffor_untrusted]
+    show decide (listElems _ = Spec.priorElems (Spec.priorFor c) ++ [c.req.peer]) = true
+    unfold Spec.priorElems Spec.priorFor
+    by_cases hp : commaJoin (Spec.believed c hXFFor) = []
+    · simp only [hp, if_true, List.nil_append, decide_eq_true_eq]
+      exact listElems_single _ hpeer.1 hpeer.2.2
+    · simp only [hp, if_false, decide_eq_true_eq]
+      exact listElems_extend _ _ hpeer.1 hpeer.2.2
+  · have hX' : Spec.xFamily c = false := by simpa using hX
+    simp only [hX', Bool.false_eq_true, if_false]
+    rw [values_wireHeaders _ _ _ (by decide) (by decide) (Or.inl (by decide)),
+      values_rewriteHeaders _ _ _ _ _ _ _ (by decide) (Or.inl (by decide)) (by decide) (by decide) (by decide), hxf]
+    simp only [hX', Bool.false_and, Bool.false_eq_true, if_false, Bool.not_false, Bool.true_and, decide_true,
+      if_true]
+    rw [values_inHeaders_fwd c _ forwarded_untrusted]
+    -- the element heimdall appends
+    have hprotoOK : elemOK (listenerProto c.req.tls) := by
+      unfold listenerProto
+      cases c.req.tls
+      · exact elemOK_of_all _ (by decide)
+      · exact elemOK_of_all _ (by decide)
+    have he : ',' ∉ forwardedElem c.req.peer c.req.host (listenerProto c.req.tls) ∧
+        ∀ ch ∈ forwardedElem c.req.peer c.req.host (listenerProto c.req.tls), isOWS ch = false := by
+      unfold forwardedElem
+      exact elemOK_append _ _ (elemOK_append _ _ (elemOK_append _ _ (elemOK_append _ _
+        (elemOK_append _ _ (elemOK_of_all _ (by decide)) hpeerOK) (elemOK_of_all _ (by decide))) hhostOK)
+        (elemOK_of_all _ (by decide))) hprotoOK
+    have hfor : ((splitOn ';' (forwardedElem c.req.peer c.req.host (listenerProto c.req.tls))).map trimOWS).contains
+        (b!"for=" ++ c.req.peer) = true := by
+      have hfp : ';' ∉ (b!"for=" ++ c.req.peer) := by
+        intro hm
+        rcases List.mem_append.mp hm with e | e
+        · revert e; decide
+        · exact hpeer.2.1 e
+      have : forwardedElem c.req.peer c.req.host (listenerProto c.req.tls) =
+          (b!"for=" ++ c.req.peer) ++ ';' :: (b!"host=" ++ c.req.host ++ b!";proto=" ++ listenerProto c.req.tls) := by
+        simp [forwardedElem]
+      have htr : trimOWS (b!"for=" ++ c.req.peer) = b!"for=" ++ c.req.peer :=
+        trimOWS_clean _ (elemOK_append _ _ (elemOK_of_all _ (by decide)) hpeerOK).2
+      have hmem : (b!"for=" ++ c.req.peer) ∈
+          (splitOn ';' (forwardedElem c.req.peer c.req.host (listenerProto c.req.tls))).map trimOWS := by
+        rw [this, splitOn_append_no_sep ';' _ hfp, List.map_cons, htr]
+        exact List.mem_cons_self
+      simpa using hmem
+    unfold Spec.priorElems Spec.priorForwarded
+    by_cases hp : commaJoin (Spec.believed c hForwarded) = []
+    · simp only [hp, if_true]
+      rw [listElems_single _ he.1 he.2]
+      simpa using hfor
+    · simp only [hp, if_false]
+      rw [listElems_extend _ _ he.1 he.2]
+      simpa using hfor
 
-example : Spec.priorFor
-    ⟨[b!"127.0.0.2"], ⟨.off, b!"up", none⟩, ⟨[], []⟩,
-     ⟨b!"GET", b!"/", b!"h", [(b!"X-Forwarded-For", b!"1.1.1.1"), (b!"x-forwarded-for", b!"2.2.2.2")], [],
-      b!"127.0.0.2"⟩⟩ = b!"1.1.1.1, 2.2.2.2" := by decide
-
-/-- **Everything else as the client sent it.**  A header name that the pipeline did not produce and that is none of
-the forwarding headers reaches the upstream with the client's values, all of them, in order. -/
-theorem c15_other_headers_untouched (c : Case) (tls : Bool) (dial : Bytes) (up : UpReq)
-    (h : forward c = .forwarded tls dial up) (k : Bytes) (h1 : Spec.transportOwned k = false)
-    (h2 : untrustedHeaders.contains k = false) (h3 : Spec.pipeValue c k = none)
-    (h4 : k ≠ hCookie ∨ c.pipe.cookies = []) :
-    values up.headers k = values (Spec.clientHeaders c) k := by
-  apply c15_headers c tls dial up h
-  unfold Spec.expectedValues
-  have hn := (not_congr (untrusted_iff k)).mp (by simpa using h2)
-  simp only [not_or] at hn
-  obtain ⟨n1, n2, n3, n4, _, _, _⟩ := hn
-  have hck : (k = hCookie ∧ c.pipe.cookies ≠ []) = False := by
-    simp only [eq_iff_iff, iff_false, not_and, ne_eq, Decidable.not_not]
-    intro e
-    rcases h4 with h | h
-    · exact absurd e h
-    · exact h
-  have h2' : ¬ k ∈ untrustedHeaders := by
-    intro hm
-    have : untrustedHeaders.contains k = true := by simpa using hm
-    rw [h2] at this
-    exact Bool.noConfusion this
-  simp [h1, n1, n2, n3, n4, hck, h3, h2']
-
+set_option maxRecDepth 100000 in
+/-- the deviation `devHost` at a witness: the `Host` of an untrusted client adds an element to `Forwarded`, the last
+element no longer names the peer -/
+example : Spec.violations
+    ⟨[], ⟨.noDecode, b!"up", none⟩, ⟨[], []⟩, ⟨b!"GET", b!"/", b!"a,for=6.6.6.6;x", [], [], b!"127.0.0.1", false⟩⟩
+    (forward ⟨[], ⟨.noDecode, b!"up", none⟩, ⟨[], []⟩,
+      ⟨b!"GET", b!"/", b!"a,for=6.6.6.6;x", [], [], b!"127.0.0.1", false⟩⟩) = [Spec.devHost] := by decide
 
 /-! ## Which requests are forwarded at all -/
 
-/-- **An encoded slash is refused when the rule says `off`** (the default), `%2F` and `%2f` alike, before anything is
-sent to the upstream. -/
+/-- **An encoded slash is refused when the rule says `off`** (the default): `%2F` and `%2f` alike, wherever they
+stand in the original path and whatever other octets that path contains, before anything is sent to the upstream. -/
 theorem c15_refuses_encoded_slash (c : Case) (h : Spec.mustRefuse c = true) : forward c = .rejected 400 := by
   unfold Spec.mustRefuse at h
   simp only [Bool.and_eq_true, decide_eq_true_eq] at h
-  obtain ⟨⟨⟨hw, hp⟩, hoff⟩, hsl⟩ := h
-  obtain ⟨path, raw, hset, hf⟩ := forward_plain c hw hp
-  unfold Spec.wellFormed at hw
-  simp only [Bool.and_eq_true] at hw
-  obtain ⟨_, hurl⟩ := extractURL_plain c path raw hp hw.1 hset
+  obtain ⟨⟨hw, hoff⟩, hsl⟩ := h
+  obtain ⟨path, raw, hsp, hset, hf⟩ := forward_wellFormed c hw
+  obtain ⟨_, _, _, hurl⟩ := extractURL_view c path raw hsp hset
   rw [hf, hurl]
-  have hne : c.rule.slashes ≠ .on := by rw [hoff]; decide
-  rw [seenPath_off c hne] at hsl
   unfold ruleTarget
-  simp [hoff, hsl]
+  simp [hoff, containsEncodedSlashL_escapeInvalid, hsl]
 
 example : Spec.mustRefuse
-    ⟨[], ⟨.off, b!"up", none⟩, ⟨[], []⟩, ⟨b!"GET", b!"/a%2fb", b!"h", [], [], b!"127.0.0.1"⟩⟩ = true := by decide
+    ⟨[], ⟨.off, b!"up", none⟩, ⟨[], []⟩, ⟨b!"GET", b!"/a|%2fb", b!"h", [], [], b!"127.0.0.1", false⟩⟩ = true := by
+  decide
 
 /-- **Everything else that is well-formed is forwarded**: a request line in origin form whose path can be decoded, no
-believed `X-Forwarded-Uri`, no encoded slash under `off`, scheme `http` or `https`. -/
+encoded slash under `off`, scheme `http` or `https`. -/
 theorem c15_accepts (c : Case) (h : Spec.mustForward c = true) : ∃ tls dial up, forward c = .forwarded tls dial up := by
   unfold Spec.mustForward at h
   simp only [Bool.and_eq_true, Bool.not_eq_true', Bool.or_eq_true, decide_eq_true_eq] at h
-  obtain ⟨⟨⟨hw, hp⟩, hsl⟩, hsch⟩ := h
-  obtain ⟨path, raw, hset, hf⟩ := forward_plain c hw hp
-  have hw' := hw
-  unfold Spec.wellFormed at hw'
-  simp only [Bool.and_eq_true] at hw'
-  obtain ⟨_, hurl⟩ := extractURL_plain c path raw hp hw'.1 hset
-  have hrt : ∃ t, ruleTarget c.rule (extractURL (inHeaders c) (srv c path raw)) = some t := by
+  obtain ⟨⟨hw, hsl⟩, hsch⟩ := h
+  obtain ⟨path, raw, hsp, hset, hf⟩ := forward_wellFormed c hw
+  obtain ⟨_, _, _, hurl⟩ := extractURL_view c path raw hsp hset
+  have hrt : ∃ t, ruleTarget c.rule (extractURL c.req.tls (inHeaders c) (srv c path raw)) = some t := by
     rw [hurl]
     unfold ruleTarget
     cases hs : c.rule.slashes with
     | on => exact ⟨_, rfl⟩
     | noDecode => exact ⟨_, rfl⟩
     | off =>
-      have hne : c.rule.slashes ≠ .on := by rw [hs]; decide
-      rw [seenPath_off c hne] at hsl
       simp only [hs, decide_true, Bool.true_and] at hsl
-      simp only [hsl, Bool.false_eq_true, if_false]
+      simp only [containsEncodedSlashL_escapeInvalid, hsl, Bool.false_eq_true, if_false]
       exact ⟨_, rfl⟩
   obtain ⟨t, ht⟩ := hrt
   rw [ht] at hf
   obtain ⟨hte, _⟩ := ruleTarget_some _ _ _ ht
   have hts : t.scheme = Spec.expectedScheme c := by
     rw [hte, createURL_scheme]
-    have : (extractURL (inHeaders c) (srv c path raw)).scheme = Spec.origScheme c := by rw [hurl]
+    have : (extractURL c.req.tls (inHeaders c) (srv c path raw)).scheme = Spec.origScheme c := by rw [hurl]
     unfold Spec.expectedScheme
     cases c.rule.rewrite <;> simp only [this]
   have : (t.scheme ≠ b!"http" && t.scheme ≠ b!"https") = false := by
@@ -539,70 +729,162 @@ theorem c15_accepts (c : Case) (h : Spec.mustForward c = true) : ∃ tls dial up
 
 example : Spec.mustForward
     ⟨[], ⟨.noDecode, b!"up", some ⟨b!"https", [], [], []⟩⟩, ⟨[], []⟩,
-     ⟨b!"GET", b!"/a%2fb?x=%zz", b!"h", [], [], b!"127.0.0.1"⟩⟩ = true := by decide
+     ⟨b!"GET", b!"/a%2fb?x=%zz", b!"h", [], [], b!"127.0.0.1", false⟩⟩ = true := by decide
 
 /-! ## The oracle -/
 
-/-- **The model meets the specification**: for every case, no clause of `Spec.violations` — the very function the check
-evaluates on what the real upstream test server received — is violated by what the model forwards or refuses. -/
-theorem c15_model_meets_spec (c : Case) : Spec.violations c (forward c) = [] := by
+/-- what a violated clause can be: one of the recorded deviations, and then the case belongs to its input class -/
+theorem c15_violated_clause_is_deviation (c : Case) (tls : Bool) (dial : Bytes) (up : UpReq) (hf : forward c = .forwarded tls dial up)
+    (cl : Spec.Clause) (hcl : cl ∈ Spec.clauses) (happ : cl.applies c = true) (hnot : cl.holds c up = false) :
+    cl.name ∈ Spec.deviations ∧
+      ¬ (Spec.pipeSingleValued c = true ∧ Spec.pipeAvoidsContinued c = true ∧ Spec.addrSafe c = true) := by
+  simp only [Spec.clauses, List.mem_cons, List.mem_nil_iff, or_false] at hcl
+  rcases hcl with e | e | e | e | e | e | e | e | e | e | e | e | e <;> subst e <;> dsimp only at happ hnot
+  · exfalso
+    have := (c15_forward_to_host c tls dial up hf).2
+    simp [this] at hnot
+  · exfalso
+    have := c15_path_exact c tls dial up hf happ
+    simp [this] at hnot
+  · exfalso
+    have := c15_path_decodes_once c tls dial up hf happ
+    simp [this.1, this.2] at hnot
+    have h2 := this.2
+    rw [this.1, hnot] at h2
+    exact Bool.noConfusion h2
+  · exfalso
+    simp only [Bool.and_eq_true, decide_eq_true_eq] at happ
+    have := c15_encoded_slash_kept c tls dial up hf happ.1.1.1 happ.1.1.2 happ.1.2 happ.2
+    rw [this] at hnot; exact Bool.noConfusion hnot
+  · exfalso
+    have := c15_query_untouched c tls dial up hf (by simpa using happ)
+    simp [this] at hnot
+  · exfalso
+    have := c15_query_only_listed_removed c tls dial up hf
+    by_cases hk : Spec.keptPieces c = []
+    · simp only [hk, if_true] at this hnot
+      simp [this] at hnot
+    · simp only [hk, if_false] at this hnot
+      simp [this] at hnot
+  · exfalso
+    have := c15_query_semantics c tls dial up hf
+    simp [this] at hnot
+  · exfalso
+    have := c15_method_body c tls dial up hf
+    simp [this.1, this.2.1] at hnot
+  · exfalso
+    have := c15_forwarded_extended_partial c tls dial up hf happ
+    rw [this] at hnot; exact Bool.noConfusion hnot
+  · exfalso
+    have hall : ((Spec.namesOf c up).all fun k =>
+        Spec.repeatedPipeName c k || Spec.pipeContinued c k || Spec.headerOK c up k) = true := by
+      rw [List.all_eq_true]
+      intro k _
+      by_cases hr : Spec.repeatedPipeName c k = true
+      · simp [hr]
+      · by_cases hp : Spec.pipeContinued c k = true
+        · simp [hp]
+        · have hr' : Spec.repeatedPipeName c k = false := by simpa using hr
+          have hp' : Spec.pipeContinued c k = false := by simpa using hp
+          simp only [hr', hp', Bool.false_or]
+          unfold Spec.headerOK
+          cases he : Spec.expectedValues c k with
+          | none => rfl
+          | some vs => simpa using c15_headers_partial c tls dial up hf k vs he hr' hp'
+    rw [hall] at hnot; exact Bool.noConfusion hnot
+  · refine ⟨by simp [Spec.deviations], fun ⟨h1, _, _⟩ => ?_⟩
+    have hall : ((Spec.namesOf c up).all fun k =>
+        !Spec.repeatedPipeName c k || Spec.pipeContinued c k || Spec.headerOK c up k) = true := by
+      rw [List.all_eq_true]
+      intro k _
+      simp [single_valued c h1 k]
+    rw [hall] at hnot; exact Bool.noConfusion hnot
+  · refine ⟨by simp [Spec.deviations], fun ⟨_, h2, _⟩ => ?_⟩
+    have hall : ((Spec.namesOf c up).all fun k =>
+        !Spec.pipeContinued c k || decide (values up.headers k = Spec.pipeValues c k)) = true := by
+      rw [List.all_eq_true]
+      intro k _
+      simp [avoids_continued c h2 k]
+    rw [hall] at hnot; exact Bool.noConfusion hnot
+  · refine ⟨by simp [Spec.deviations], fun ⟨_, _, h3⟩ => ?_⟩
+    simp [h3] at happ
+
+theorem c15_violations_forwarded (c : Case) (tls : Bool) (dial : Bytes) (up : UpReq)
+    (hf : forward c = .forwarded tls dial up) (v : String) (hv : v ∈ Spec.violations c (.forwarded tls dial up)) :
+    ∃ cl ∈ Spec.clauses, cl.applies c = true ∧ cl.holds c up = false ∧ cl.name = v := by
+  have h0 : Spec.mustRefuse c = false := by
+    by_cases h : Spec.mustRefuse c = true
+    · have := c15_refuses_encoded_slash c h
+      rw [hf] at this
+      exact Outcome.noConfusion this
+    · simpa using h
+  have h1 := (c15_forward_to_host c tls dial up hf).1
+  have h2 := c15_scheme c tls dial up hf
+  unfold Spec.violations at hv
+  simp only [List.mem_append] at hv
+  rcases hv with ((hv | hv) | hv) | hv
+  · simp [h0] at hv
+  · simp [h1] at hv
+  · simp [h2] at hv
+  · simp only [List.mem_map, List.mem_filter, Bool.and_eq_true, Bool.not_eq_true'] at hv
+    obtain ⟨cl, ⟨hcl, happ, hnot⟩, hname⟩ := hv
+    exact ⟨cl, hcl, happ, hnot, hname⟩
+
+/-- a refused request never violates a clause -/
+theorem c15_violations_rejected (c : Case) (st : Nat) (hf : forward c = .rejected st) :
+    Spec.violations c (.rejected st) = [] := by
+  unfold Spec.violations
+  have h1 : Spec.mustForward c = false := by
+    by_cases h : Spec.mustForward c = true
+    · obtain ⟨tls, dial, up, hh⟩ := c15_accepts c h
+      rw [hf] at hh
+      exact Outcome.noConfusion hh
+    · simpa using h
+  by_cases hr : Spec.mustRefuse c = true
+  · have := c15_refuses_encoded_slash c hr
+    rw [hf] at this
+    simp only [Outcome.rejected.injEq] at this
+    simp [h1, this]
+  · simp [h1, hr]
+
+/-- **The model meets the specification up to the recorded deviations**: for every case, the only clauses of
+`Spec.violations` — the very function the check evaluates on what the real upstream test server received — that what
+the model forwards or refuses can violate are the three `Spec.deviations`. -/
+theorem c15_model_meets_spec_up_to_known_deviations (c : Case) :
+    ∀ v ∈ Spec.violations c (forward c), v ∈ Spec.deviations := by
+  intro v hv
+  cases hf : forward c with
+  | unmodelled => rw [hf] at hv; simp [Spec.violations] at hv
+  | rejected st => rw [hf, c15_violations_rejected c st hf] at hv; simp at hv
+  | forwarded tls dial up =>
+    rw [hf] at hv
+    obtain ⟨cl, hcl, happ, hnot, hname⟩ := c15_violations_forwarded c tls dial up hf v hv
+    rw [← hname]
+    exact (c15_violated_clause_is_deviation c tls dial up hf cl hcl happ hnot).1
+
+/-- **Outside the three recorded input classes the model meets every clause**: the pipeline produced at most one value
+per name, none under the name of the forwarding header heimdall continues, and peer address and `Host` are free of
+list delimiters. -/
+theorem c15_model_meets_spec_partial (c : Case) (h1 : Spec.pipeSingleValued c = true)
+    (h2 : Spec.pipeAvoidsContinued c = true) (h3 : Spec.addrSafe c = true) :
+    Spec.violations c (forward c) = [] := by
   cases hf : forward c with
   | unmodelled => rfl
-  | rejected st =>
-    unfold Spec.violations
-    have h1 : Spec.mustForward c = false := by
-      by_cases h : Spec.mustForward c = true
-      · obtain ⟨tls, dial, up, hh⟩ := c15_accepts c h
-        rw [hf] at hh
-        exact Outcome.noConfusion hh
-      · simpa using h
-    have h2 : Spec.mustRefuse c = true → st = 400 := by
-      intro h
-      have := c15_refuses_encoded_slash c h
-      rw [hf] at this
-      simpa using this
-    simp [h1]
-    exact h2
+  | rejected st => exact c15_violations_rejected c st hf
   | forwarded tls dial up =>
-    unfold Spec.violations
-    have h0 : Spec.mustRefuse c = false := by
-      by_cases h : Spec.mustRefuse c = true
-      · have := c15_refuses_encoded_slash c h
-        rw [hf] at this
-        exact Outcome.noConfusion this
-      · simpa using h
-    have h1 := (c15_forward_to_host c tls dial up hf).1
-    have h2 := c15_scheme c tls dial up hf
-    have hcl : (Spec.clauses.filter fun cl => cl.applies c && !cl.holds c up) = [] := by
-      rw [List.filter_eq_nil_iff]
-      intro cl hcl
-      simp only [Spec.clauses, List.mem_cons, List.mem_nil_iff, or_false] at hcl
-      rcases hcl with e | e | e | e | e | e | e | e <;> subst e <;>
-        simp only [Bool.and_eq_true, Bool.not_eq_true', not_and, Bool.not_eq_false]
-      · intro _
-        simpa using (c15_forward_to_host c tls dial up hf).2
-      · intro ha
-        simpa using c15_path_exact c tls dial up hf ha.1 ha.2
-      · intro ha
-        have := c15_path_decodes_once c tls dial up hf ha.1 ha.2
-        simp [this.1, this.2]
-        rw [← this.1]; exact this.2
-      · intro ha
-        have h2' : Spec.stripNames c = [] := by simpa using ha.2
-        simpa using c15_query_untouched c tls dial up hf ha.1 h2'
-      · intro ha
-        simpa using c15_query_only_listed_removed c tls dial up hf ha
-      · intro ha
-        simpa using c15_query_semantics c tls dial up hf ha
-      · intro _
-        have := c15_method_body c tls dial up hf
-        simp [this.1, this.2.1]
-      · intro _
-        rw [List.all_eq_true]
-        intro k _
-        cases he : Spec.expectedValues c k with
-        | none => rfl
-        | some vs => simpa using c15_headers c tls dial up hf k vs he
-    simp [h0, h1, h2, hcl]
+    apply List.eq_nil_iff_forall_not_mem.mpr
+    intro v hv
+    obtain ⟨cl, hcl, happ, hnot, _⟩ := c15_violations_forwarded c tls dial up hf v hv
+    exact (c15_violated_clause_is_deviation c tls dial up hf cl hcl happ hnot).2 ⟨h1, h2, h3⟩
+
+set_option maxRecDepth 100000 in
+/-- the deviations `devRepeated` and `devContinued` at a witness: the second value the pipeline produced under one name
+is dropped; a `Forwarded` header produced by the pipeline is replaced by heimdall's own -/
+example : Spec.violations
+    ⟨[], ⟨.noDecode, b!"up", none⟩, ⟨[(b!"X-Groups", b!"a"), (b!"x-groups", b!"b"), (b!"Forwarded", b!"for=9.9.9.9")], []⟩,
+     ⟨b!"GET", b!"/", b!"h", [], [], b!"127.0.0.1", false⟩⟩
+    (forward ⟨[], ⟨.noDecode, b!"up", none⟩,
+      ⟨[(b!"X-Groups", b!"a"), (b!"x-groups", b!"b"), (b!"Forwarded", b!"for=9.9.9.9")], []⟩,
+      ⟨b!"GET", b!"/", b!"h", [], [], b!"127.0.0.1", false⟩⟩) = [Spec.devRepeated, Spec.devContinued] := by decide
 
 end Heimdall.Props.C15
